@@ -267,6 +267,46 @@ func loopCaptureCheck(c *core.Ctx, fns []*ssa.Function) int {
 			}
 		})
 	}
+	// a literal built by a factory function called in the loop captures the factory's own per-call cells: as good as
+	// per-iteration (handing the factory the ADDRESS of a loop variable is what the next block looks for)
+	for _, fn := range fns {
+		loops := core.LoopOf(fn)
+		core.Instrs(fn, func(in ssa.Instruction) {
+			call, ok := in.(*ssa.Call)
+			if !ok || loops[call.Block()] < 0 {
+				return
+			}
+			callee := core.InfoOf(&call.Call).Static
+			if callee == nil || callee.Blocks == nil || callee.Parent() != nil || !strings.HasPrefix(core.InfoOf(&call.Call).Pkg, core.ModulePath) {
+				return
+			}
+			if callee.Signature.Results().Len() != 1 {
+				return
+			}
+			if _, isFn := callee.Signature.Results().At(0).Type().Underlying().(*types.Signature); !isFn {
+				return
+			}
+			own := true
+			lits := 0
+			core.Instrs(callee, func(x ssa.Instruction) {
+				mc, isMC := x.(*ssa.MakeClosure)
+				if !isMC {
+					return
+				}
+				lits++
+				for _, b := range mc.Bindings {
+					if al, isAl := b.(*ssa.Alloc); !isAl || al.Parent() != callee {
+						own = false
+					}
+				}
+			})
+			if lits == 0 || !own {
+				return
+			}
+			n++
+			c.Ok(core.FuncName(callee)+":per-call", call.Pos(), "the literal is built by a factory called in the loop and captures only the factory's own per-call cells")
+		})
+	}
 	// the same through a helper: the ADDRESS of a cell that the loop re-assigns is handed to a function that keeps it
 	// (captures it in a literal it returns, or stores it): everything built from it sees the last entry
 	for _, fn := range fns {
